@@ -87,7 +87,7 @@ fn main() {
     }
     let _saved_stderr = if std::env::var("VERIF_KEEP_STDERR").is_ok() { -1 } else { verif_rt::process::silence_stderr() };
     // processes that execute simulated code keep their own output apart from what that code prints
-    if matches!(args[1].as_str(), "--worker" | "--report" | "replay" | "selftest-determinism" | "selftest-primitives") {
+    if matches!(args[1].as_str(), "--worker" | "--report" | "replay" | "explore" | "selftest-determinism" | "selftest-primitives") {
         verif_rt::process::silence_stdout();
     }
     verif_rt::process::install_dispatcher();
@@ -108,6 +108,16 @@ fn main() {
                 usage();
             }
             replay(&args[2])
+        }
+        "explore" => {
+            // explore <replay file> <count>: run the file's scenario under <count> other run seeds
+            if args.len() < 4 {
+                usage();
+            }
+            let text = std::fs::read_to_string(&args[2]).expect("read file");
+            let rf: ReplayFile = serde_json::from_str(&text).expect("parse file");
+            let count: u64 = args[3].parse().unwrap();
+            with_scenario!(rf.property.as_str(), S => explore::<S>(&rf, count), usage())
         }
         "selftest-primitives" => {
             let runs = args.get(2).and_then(|s| s.parse().ok()).unwrap_or(2000);
@@ -232,4 +242,26 @@ fn det_lines<S: Scenario>(seed: u64, runs: u64) -> Vec<String> {
     let mut v = out.lock().unwrap().clone();
     v.sort();
     v.into_iter().map(|x| x.1).collect()
+}
+
+fn explore<S: Scenario>(rf: &ReplayFile, count: u64) -> i32 {
+    let mut hist: std::collections::BTreeMap<String, u64> = Default::default();
+    let mut first_bad: Option<(u64, String)> = None;
+    for i in 0..count {
+        let mut v = rf.scenario.clone();
+        let seed = verif_rt::prng::derive(rf.run_seed, 7_000 + i);
+        v["run_seed"] = serde_json::json!(seed);
+        let sc: S = serde_json::from_value(v).expect("scenario");
+        let o = sc.execute(&Plan::Seeded);
+        let key = o.violation.as_ref().map(|x| x.class.clone()).unwrap_or_else(|| "ok".into());
+        if o.violation.is_some() && first_bad.is_none() {
+            first_bad = Some((seed, o.violation.as_ref().unwrap().detail.clone()));
+        }
+        *hist.entry(key).or_insert(0) += 1;
+    }
+    out!("explore: {hist:?}");
+    if let Some((seed, d)) = first_bad {
+        out!("first failing run_seed {seed}: {d}");
+    }
+    0
 }
